@@ -283,7 +283,8 @@ def run_case(args):
     if len(outs) != len(lines):
         res["problems"].append({"what": f"{len(lines)} commands, {len(outs)} responses: {out.strip().splitlines()[-1][:160] if out.strip() else ''}",
                                 "stdout": out[-300:],
-                                "match": "no-color-after-pop" if "No color detected for term" in out and "(pop" in script else None})
+                                "match": "no-color-after-pop" if "No color detected for term" in out and "(pop" in script else
+                                         ("euf-itp-missing-node" if "internal error: map::at" in out and "QF_UF" in script else None)})
         return res
     declared = {d.split()[1] for d in p.decls if d.startswith("(declare-fun") or d.startswith("(declare-const")}
     logic_line = p.set_logic()
@@ -300,7 +301,8 @@ def run_case(args):
         if not isinstance(ans, list) or (ans and smtlib.sym(ans[0]) == "error"):
             res["rejected"] += 1
             res["problems"].append({"what": f"request `{lines[li]}` after unsat, over names of current assertions, is rejected: "
-                                            f"{smtlib.unparse(ans)}", "kind": "rejected"})
+                                            f"{smtlib.unparse(ans)}", "kind": "rejected",
+                                    "match": "euf-itp-missing-node" if "internal error: map::at" in smtlib.unparse(ans) and "QF_UF" in script else None})
             continue
         if len(ans) != len(groups) - 1:
             res["problems"].append({"what": f"`{lines[li]}`: {len(groups)} groups but {len(ans)} interpolants"})
